@@ -963,6 +963,8 @@ def gen_program(rng, path, tmpl=None):
                 P.clang_safe = False      # clang starts a token at a backslash-newline that directly precedes it
             out += pre
             P.viol_off = len(out)
+            if bytes(out).endswith(b"\\\n"):
+                P.clang_safe = False      # clang starts a token at a backslash-newline that directly precedes it
             out += ln + rng.choice([b"", b"", b" ", b" // c", b" /* c */", b" \\\n"])
             out += b"\n"
         else:
